@@ -500,9 +500,26 @@ def write_world(case, base, port):
                     h5["basins"].move(key, b["key"])
                     key = b["key"]
                 final.setdefault(key, bi)
+                if b.get("dup") and key in h5["basins"] and \
+                        ("dup_" + key) not in h5["basins"]:
+                    # the same definition once more under another key
+                    h5["basins"].create_dataset(
+                        "dup_" + key, data=h5["basins"][key][:])
+                    final.setdefault("dup_" + key, bi)
             order = [k for k in h5["basins"]] if "basins" in h5 else []
             keyorder.append([(k, final[k]) for k in order if k in final])
         paths.append(path)
+    for (i, n, j) in case.get("mapsrc", []):
+        # basinmap<n> of file i is stored in file j (the target of a "same"
+        # basin of i) instead of in i
+        name = "basinmap%d" % n
+        with h5py.File(paths[i], "a") as h5:
+            if name in h5["events"]:
+                del h5["events"][name]
+        with h5py.File(paths[j], "a") as h5:
+            if name not in h5["events"]:
+                h5["events"].create_dataset(
+                    name, data=bmap(n, nev(case["files"][i])))
     exotic = case.get("exotic")
     rpath = paths[case["root"]["file"]]
     if exotic and rpath is not None:
@@ -585,29 +602,37 @@ def observe(case, base, port):
     ds = None
     parents = []
     try:
+        kw = {}
+        if case.get("exotic") == "no-basins":
+            kw["enable_basins"] = False
         if root["fmt"] == "hdf5":
-            if case.get("exotic") == "no-basins":
+            if kw:
                 from dclab.rtdc_dataset import fmt_hdf5
-                ds = fmt_hdf5.RTDC_HDF5(rootpath, enable_basins=False)
+                ds = fmt_hdf5.RTDC_HDF5(rootpath, **kw)
             else:
                 ds = dclab.new_dataset(rootpath)
         elif root["fmt"] == "dcor":
             from dclab.rtdc_dataset import fmt_dcor
             ds = fmt_dcor.RTDC_DCOR("http://%s%s?id=%s" % (
-                port[2], DCOR_PATH, dcor_uuid(port[1], root["file"])))
+                port[2], DCOR_PATH, dcor_uuid(port[1], root["file"])), **kw)
         elif root["fmt"] == "s3":
             from dclab.rtdc_dataset import fmt_s3
             url = "http://127.0.0.1:%d/%s/%s" % (
                 port[0], port[1],
                 file_relpath(case, root["file"]).replace(os.sep, "/"))
-            ds = fmt_s3.RTDC_S3(url)
+            ds = fmt_s3.RTDC_S3(url, **kw)
         else:
             url = "http://127.0.0.1:%d/%s/%s" % (
                 port[0], port[1],
                 file_relpath(case, root["file"]).replace(os.sep, "/"))
-            ds = fmt_http.RTDC_HTTP(url)
+            ds = fmt_http.RTDC_HTTP(url, **kw)
         # hierarchy children (of children) of the root dataset
-        for _ in range(case.get("hier", 0)):
+        for level in range(case.get("hier", 0)):
+            if level == 0 and case.get("hfilter") is not None:
+                # a real filter: the child holds the kept events only
+                for k in range(len(ds)):
+                    ds.filter.manual[k] = k in case["hfilter"]
+                ds.apply_filter()
             parents.append(ds)
             ds = dclab.new_dataset(ds)
 
@@ -977,8 +1002,11 @@ def spec_states(case, relax=()):
     `events[k]` is the event of the file that root event k maps to."""
     edges = spec_edges(case, relax)
     rootf = case["files"][case["root"]["file"]]
+    kept = range(nev(rootf))
+    if case.get("hier", 0) and case.get("hfilter") is not None:
+        kept = [k for k in kept if k in case["hfilter"]]
     start = (case["root"]["file"], case["root"]["fmt"] != "hdf5",
-             tuple(range(nev(rootf))))
+             tuple(kept))
     seen = {start}
     todo = [start]
     while todo:
@@ -1339,10 +1367,14 @@ def rand_basin(rng, n, i, j, net_bias):
                            [("here", j), ("here", other)]])
     feats = None
     if rng.random() < 0.4:
-        feats = rng.sample(range(NFEAT), rng.randint(1, 3))
+        # (an empty list offers nothing; it is not "no list")
+        feats = rng.sample(range(NFEAT), rng.choice([0, 1, 1, 2, 2, 3]))
     m = 0 if rng.random() < 0.65 else rng.randint(1, 3)
     key = rng.choice(["k0", "k1", "k2"]) if rng.random() < 0.12 else None
-    return _basin(kind, locs, feats, m, key)
+    b = _basin(kind, locs, feats, m, key)
+    if kind != "internal-hdf5" and rng.random() < 0.06:
+        b["dup"] = True
+    return b
 
 
 def make_dcor(rng, files, j):
@@ -1357,6 +1389,7 @@ def make_dcor(rng, files, j):
     for b in f["basins"]:
         b["map"] = 0
         b.pop("legacy", None)
+        b.pop("dup", None)
         if b["key"] is None and rng.random() < 0.5:
             b["nokey"] = True
     # what points at it must be a DCOR basin to reach it
@@ -1443,9 +1476,37 @@ def gen_case(rng, max_files=6):
     case = dict(root=dict(fmt=rootfmt, file=0), files=files,
                 proto=rng.choice([0, 0, 1, 2, 3]),
                 hier=rng.choice([0, 0, 0, 1, 2]))
-    if n > 1 and rng.random() < 0.25:
+    if case["hier"] and rng.random() < 0.5:
+        case["hfilter"] = sorted(rng.sample(range(nev(files[0])),
+                                            rng.randint(1, 2)))
+    add_mapsrc(rng, case)
+    if n > 1 and rng.random() < 0.25 and not case.get("mapsrc"):
         case["edit"] = rand_edit(rng, files)
     return case
+
+
+def add_mapsrc(rng, case):
+    """The mapping feature of the root's mapped basins is not stored in the
+    root but in the file behind a matching "same" basin of the root that is
+    retrieved before them (file basin for a root opened from disk, http
+    basin below a network format)."""
+    files = case["files"]
+    root = files[0]
+    if root.get("dcor") or len(files) < 2 or rng.random() > 0.2:
+        return
+    maps = sorted(set(b["map"] for b in root["basins"] if b["map"] > 0))
+    if not maps:
+        return
+    cands = [j for j in range(1, len(files)) if not files[j].get("dcor")
+             and nev(files[j]) == nev(root)]
+    if not cands:
+        return
+    j = rng.choice(cands)
+    files[j].update(rid=root["rid"], ridmode=root["ridmode"],
+                    time=root["time"])
+    kind = "file" if case["root"]["fmt"] == "hdf5" else "http"
+    root["basins"].append(_basin(kind, [("here", j)], None, 0))
+    case["mapsrc"] = [[0, m - 1, j] for m in maps]
 
 
 def rand_edit(rng, files):
@@ -1654,6 +1715,71 @@ def _dbg(msg):
         sys.stderr.write("[c14 %.1fs] %s\n" % (time.time() - _T0, msg))
 
 
+def case_classes(case):
+    """input classes of a case (for the evidence and the coverage floor)"""
+    files = case["files"]
+    n = len(files)
+    cls = set()
+    adj = [set() for _ in range(n)]
+    mapped_edge = set()
+    for i, f in enumerate(files):
+        for b in f["basins"]:
+            if b["kind"] == "internal":
+                continue
+            for how, t in b["locs"]:
+                if how != "nowhere" and t < n:
+                    adj[i].add(t)
+                    if b["map"]:
+                        mapped_edge.add((i, t))
+            if b["map"]:
+                cls.add("mapped-basin")
+            if b.get("legacy"):
+                cls.add("legacy-definition")
+            if b.get("nokey"):
+                cls.add("keyless-definition")
+            if b.get("dup"):
+                cls.add("duplicate-definition")
+            if b["feats"] == []:
+                cls.add("empty-feature-list")
+            if b.get("key"):
+                cls.add("custom-key")
+    # strongly connected components (reachability closure; n <= 6)
+    reach = [set(a) for a in adj]
+    for _ in range(n):
+        for i in range(n):
+            for j in list(reach[i]):
+                reach[i] |= reach[j]
+    for i in range(n):
+        comp = [j for j in range(n) if j in reach[i] and i in reach[j]]
+        if i in reach[i]:
+            cls.add("cycle>=3" if len(comp) >= 3 else
+                    "cycle=%d" % max(1, len(comp)))
+            if any((a, b) in mapped_edge for a in comp for b in comp):
+                cls.add("mapped-edge-in-cycle")
+    if any(f.get("nev") == 5 for f in files):
+        cls.add("nev=5")
+    if any(f.get("dcor") for f in files):
+        cls.add("dcor-resource")
+    for k in ("edit", "mapsrc", "hfilter"):
+        if case.get(k):
+            cls.add(k)
+    if case.get("exotic"):
+        cls.add("exotic:" + case["exotic"])
+    cls.add("root:" + case["root"]["fmt"])
+    if case.get("hier"):
+        cls.add("hierarchy-child")
+    return cls
+
+
+# classes that every run must have evaluated (quick, thorough)
+FLOOR = {"cycle>=3": (3, 50), "mapped-edge-in-cycle": (3, 50),
+         "root:http": (30, 300), "root:s3": (2, 20), "root:dcor": (5, 50),
+         "edit": (10, 100), "mapsrc": (3, 30), "hfilter": (5, 50),
+         "exotic:no-basins": (1, 10), "exotic:internal-same": (1, 10),
+         "empty-feature-list": (3, 30), "keyless-definition": (3, 30),
+         "legacy-definition": (3, 30), "nev=5": (2, 20)}
+
+
 def check_cases(run, cases, record=True):
     results = run_cases(run.scratch, cases,
                         budget=900 if run.thorough else 200,
@@ -1669,6 +1795,34 @@ def check_cases(run, cases, record=True):
                 sorted(set(b["kind"] for f in cases[k]["files"]
                            for b in f["basins"]))))
     skipped = set(k for k, r in enumerate(results) if r[0]["status"] == 4)
+    ncases_all = len(cases)
+    if skipped:
+        # Cases were left out.  If that was because some cases ran into the
+        # limit, find out whether they really do not end (tripled limit);
+        # if they do end, the machine was busy: evaluate the rest after all.
+        tmo = [k for k, r in enumerate(results) if r[0]["status"] == 1]
+        real = False
+        if tmo:
+            os.environ["C14_LIMIT_FACTOR"] = "3"
+            try:
+                redo = run_cases(run.scratch, [cases[k] for k in tmo[:8]],
+                                 nproc=8, budget=150)
+            finally:
+                os.environ.pop("C14_LIMIT_FACTOR", None)
+            for k, r in zip(tmo[:8], redo):
+                if r[0]["status"] not in (3, 4):
+                    results[k] = r
+            real = any(results[k][0]["status"] == 1 for k in tmo)
+        if not real:
+            order = sorted(skipped)
+            redo = run_cases(run.scratch, [cases[k] for k in order],
+                             budget=600 if run.thorough else 150,
+                             max_timeouts=12 if run.thorough else 3)
+            for k, r in zip(order, redo):
+                results[k] = r
+            run.count("second-round", len(order))
+            skipped = set(k for k, r in enumerate(results)
+                          if r[0]["status"] == 4)
     if skipped:
         run.notes.append("%d of %d cases not evaluated (time budget of the "
                          "tier used up, or several cases did not terminate)"
@@ -1738,6 +1892,7 @@ def check_cases(run, cases, record=True):
                 results[k] = r
         run.count("re-run", len(again))
     _dbg("re-run done (%d)" % len(again))
+    evaluated_classes = {}
     for k, case in enumerate(cases):
         res, keyorder = results[k]
         if record:
@@ -1752,6 +1907,11 @@ def check_cases(run, cases, record=True):
             run.count("status=%d" % res["status"])
             if case.get("exotic"):
                 run.count("oracle-only:%s" % case["exotic"])
+            for c in case_classes(case):
+                run.count("class:" + c)
+                evaluated_classes[c] = evaluated_classes.get(c, 0) + 1
+            if res.get("killed"):
+                run.count("child-killed-at-limit")
             if res["fb"] and res["fb"] != [-2]:
                 run.count("offers-basin-features")
         if res["status"] == 3 or keyorder is None:
@@ -1772,6 +1932,21 @@ def check_cases(run, cases, record=True):
                 run.mismatch(case, model2[k], flat_impl(res["second"]),
                              what="correspondence (fresh open after the "
                                   "world edit)")
+    if record:
+        # fail closed: a run that evaluated too little does not count
+        low = []
+        if len(cases) < 0.7 * ncases_all:
+            low.append("only %d of %d cases evaluated" % (len(cases),
+                                                          ncases_all))
+        for c, (q, t) in sorted(FLOOR.items()):
+            need = t if run.thorough else q
+            if evaluated_classes.get(c, 0) < need:
+                low.append("class %s: %d evaluated, floor %d" % (
+                    c, evaluated_classes.get(c, 0), need))
+        run.extra["evaluated_classes"] = dict(sorted(
+            evaluated_classes.items()))
+        if low:
+            run.broken.append(("coverage(C14)", "; ".join(low)))
 
 
 # mapped basins of unverified kinds without basinmap feature need the fix
@@ -1790,15 +1965,16 @@ def run(run):
         cases += graph_cases(n, run.rng, quickvars)
     for _ in range(300 if run.thorough else 24):
         c = gen_case(run.rng, max_files=4)
-        if c["root"]["fmt"] not in ("hdf5", "http"):
-            c["root"]["fmt"] = "http"
-            for f in c["files"]:
-                f.pop("dcor", None)
+        c.pop("mapsrc", None)
+        c.pop("edit", None)
         # (the first kind costs about 1 s per access of the dataset)
         c["exotic"] = run.rng.choice(["no-basinmap"] + 4 * ["internal-same"]
                                      + 4 * ["no-basins"])
-        if c["exotic"] == "no-basins":
-            c["root"]["fmt"] = "hdf5"
+        if c["exotic"] != "no-basins" and \
+                c["root"]["fmt"] not in ("hdf5", "http"):
+            c["root"]["fmt"] = "http"
+            for f in c["files"]:
+                f.pop("dcor", None)
         if c["exotic"] == "no-basinmap":
             # (a DCOR root cannot hold mapped basins at all)
             if c["root"]["fmt"] != "http" or NO_BASINMAP_FILE_ONLY:
